@@ -65,6 +65,12 @@ func TestC18Backend(t *testing.T) {
 			} {
 				got := tr.get("m", m.metric)
 				c.Tracef("%s = %v, model %v (evicted %v)", m.metric, got, m.want, d.evicted)
+				if m.metric == cache.MetricExpired {
+					c.Assert(got <= m.want && got >= m.want-d.cnt.expiredSlack, "metric:"+m.metric, "%s = %v after the history, the model counted %v such events (of which %v are already expired entries hit by ExpireAll, which may or may not count)", m.metric, got, m.want, d.cnt.expiredSlack)
+
+					continue
+				}
+
 				c.Assert(got == m.want, "metric:"+m.metric, "%s = %v after the history, the model counted %v such events", m.metric, got, m.want)
 			}
 		})
@@ -149,7 +155,7 @@ func TestC18Failover(t *testing.T) {
 
 			got := w.ct.get("real", cache.MetricHit) + w.ct.get("real", cache.MetricMiss) + w.ct.get("real", cache.MetricExpired)
 			want := realReads + float64(w.extExpired)
-			c.Assert(got == want, "metric:real/reads", "real backend hit+miss+expired = %v, delegated non-skipped reads + entries touched by ExpireAll = %v", got, want)
+			c.Assert(got <= want && got >= want-float64(w.extExpiredSlack), "metric:real/reads", "real backend hit+miss+expired = %v, delegated non-skipped reads + entries touched by ExpireAll = %v (%d of them already expired before, which may or may not count)", got, want, w.extExpiredSlack)
 			check("real", cache.MetricWrite, realWrites+float64(w.prepWrites))
 			check("real", cache.MetricDelete, float64(w.extDeleted))
 		})
